@@ -233,6 +233,25 @@ def rebuild_step(ses, rep):
     return flagged
 
 
+def region_tracking(ses, rep):
+    """`-- stylua: ignore start` .. `end` regions span statements: the members of a group are ignored when the region is open at them.
+    sort_requires sees the top-level statements itself, so it has to toggle the context statement by statement (Context::
+    check_toggle_formatting, as format_block does): (a) it is applied to group members and to the statements between groups,
+    (b) the guard's should_format_node runs on a toggled context, not on the context sort_requires was given."""
+    flagged = []
+    funcs = ses.mir("lib", "default")
+    own = [f for n_, l in funcs.items() for f in l if n_ == "sort_requires" or n_.startswith("sort_requires::{closure")]
+    togglers = [f for f in own if any(s_[0] == "call" and canon(s_[2]).endswith("check_toggle_formatting") for sts in f.blocks.values() for s_ in sts)]
+    member_ty = re.compile(r"\(std::string::String, \(Stmt, std::option::Option<TokenReference>\)\)")
+    on_members = [f for f in togglers if any(member_ty.search(t) for _, t in f.params) or f.name == "sort_requires"]
+    r, m = ses.obligation("region/contexts-are-toggled-over-the-top-level-statements", [], z3.BoolVal(len(togglers) == 0 or not on_members),
+                          "check_toggle_formatting is applied to the statements sort_requires walks over")
+    if r == "sat":
+        flagged.append(("region/contexts-are-toggled-over-the-top-level-statements", "sort_requires never toggles the ignore state: a group inside "
+                        "`-- stylua: ignore start` .. `end` is sorted", "region", {}))
+    return flagged
+
+
 def enabled_only(ses, rep):
     flagged = []
     ex = ses.executor("lib", "default", inline=lambda n, f: False)
@@ -267,6 +286,12 @@ BATTERY = [
      R("c") + '--[[ stylua: ignore ]] local   b   =   require("b")\n' + R("a")),
     ("ignored-last-member", R("c") + R("b") + '--[[ stylua: ignore ]] local   a   =   require("a")\n', ["--sort-requires"],
      R("c") + R("b") + '--[[ stylua: ignore ]] local   a   =   require("a")\n'),
+    ("ignore-region", "-- stylua: ignore start\n" + R("b") + R("a") + "-- stylua: ignore end\n" + R("d") + R("c"), ["--sort-requires"],
+     "-- stylua: ignore start\n" + R("b") + R("a") + "-- stylua: ignore end\n" + R("c") + R("d")),
+    ("ignore-region-opened-earlier", "-- stylua: ignore start\nlocal   v   =   1\n\n" + R("b") + R("a") + "-- stylua: ignore end\nlocal   w   =   2\n", ["--sort-requires"],
+     "-- stylua: ignore start\nlocal   v   =   1\n\n" + R("b") + R("a") + "-- stylua: ignore end\nlocal w = 2\n"),
+    ("ignore-region-closed-before", "-- stylua: ignore start\nlocal   v   =   1\n-- stylua: ignore end\n\n" + R("b") + R("a"), ["--sort-requires"],
+     "-- stylua: ignore start\nlocal   v   =   1\n-- stylua: ignore end\n\n" + R("a") + R("b")),
     ("wrapped-require", 'local c = require(\n\t"c"\n)\n' + R("b") + R("a"), ["--sort-requires"], R("a") + R("b") + R("c")),
     ("out-of-range-group", R("b") + R("a") + "local v   =   1\n", ["--sort-requires", "--range-start", "50"], R("b") + R("a") + "local v = 1\n"),
     ("partly-in-range-group", R("b") + R("a") + "local v   =   1\n", ["--sort-requires", "--range-start", "30"], R("b") + R("a") + "local v = 1\n"),
@@ -279,7 +304,7 @@ BATTERY = [
      'local B = require("y")\nlocal a = require("x")\nlocal a = require("z")\n'),
 ]
 TRIVIA = ("comment-on-moved-member", R("b") + "--[[c]] " + R("a"), ["--sort-requires"], "--[[c]]")
-KIND2SCEN = {"grouping": ["blank-line-splits", "statement-splits", "kinds-do-not-merge", "wrapped-require", "sorted", "blank-line-with-spaces", "blank-line-crlf"],
+KIND2SCEN = {"region": ["ignore-region", "ignore-region-opened-earlier", "ignore-region-closed-before"], "grouping": ["blank-line-splits", "statement-splits", "kinds-do-not-merge", "wrapped-require", "sorted", "blank-line-with-spaces", "blank-line-crlf"],
              "members": ["semicolon-comments", "sorted", "stable-duplicates"],
              "guard": ["ignored-member", "ignored-second-member", "ignored-last-member", "out-of-range-group", "partly-in-range-group"], "sort": ["sorted", "stable-duplicates", "blank-line-splits"],
              "enabled": ["off", "sorted"]}
@@ -316,6 +341,7 @@ def run(ses, rep):
         if not any(f[0] == "ignore-guard/tests-every-member" for f in flagged):
             raise           # (when the guard is not an `any` any more, that is what gets reported, not the unrecognised loop)
     flagged += enabled_only(ses, rep)
+    flagged += region_tracking(ses, rep)
     rep.samples.append({"flagged": [(f[0], f[1]) for f in flagged][:6]})
     for oid, what, kind, info in flagged:
         if kind == "trivia":
